@@ -3,7 +3,7 @@
 From Coq Require Import Reals List.
 From Coquelicot Require Import Coquelicot.
 From GS Require Import ExprR LinAlg Jac Meth MethR Prog Chain Wrap GenR2 GenR3 GenSE2 GenSE3 GenEdges
-  C10_SE3 C10_SE3_boxplus C10_SE2 C10_Rn C09_SE2 C01_SE3 C01_Rn C01_SE2 C01_all.
+  C10_SE3 C10_SE3_boxplus C10_SE2 C10_Rn C09_SE2 C01_SE3 C01_Rn C01_SE2 C01_SE2_full C01_all.
 Import ListNotations.
 Open Scope R_scope.
 
@@ -22,16 +22,16 @@ Theorem C01 :
      forall i, is_derive (fun t => nth i (err_lmk3 (SE3_boxplus_fun p (vscale t u)) l z off) 0) 0 (nth i (matvec (nth 0 (jac_lmk3 p l z off) []) u) 0)) /\
   (forall p l z off u, length p = 7%nat -> length l = 3%nat -> length z = 3%nat -> length off = 7%nat -> length u = 3%nat ->
      forall i, is_derive (fun t => nth i (err_lmk3 p (R3_boxplus_fun l (vscale t u)) z off) 0) 0 (nth i (matvec (nth 1 (jac_lmk3 p l z off) []) u) 0)) /\
-  (* ---- SE(2): vertex angle in [-pi,pi) (true of every constructed pose, C11) and the wrapped angles
-          computed along the way not exactly at the wrap (see smooth_*_iff) ---- *)
+  (* ---- SE(2) odometry: the ONLY excluded points are those where the error itself jumps, i.e. where the
+          angle residual  z.theta - (p2.theta - p1.theta)  is an odd multiple of pi (not_at_wrap); no range
+          hypothesis on the stored angles, none on the intermediate normalisations (they cancel by
+          periodicity: proofs/C01_SE2_full.v) ---- *)
   (forall p1 p2 z u, length p1 = 3%nat -> length p2 = 3%nat -> length z = 3%nat -> length u = 3%nat ->
-     smooth_at (p2 ++ p1) SE2_ominus -> smooth_at (z ++ evl (p2 ++ p1) SE2_ominus) SE2_ominus ->
-     (in_range p1 -> smooth_at (p1 ++ zeros 3) SE2_boxplus ->
-        forall i, is_derive (fun t => nth i (err_odo2 (SE2_boxplus_fun p1 (vscale t u)) p2 z) 0) 0 (nth i (matvec (nth 0 (jac_odo2 p1 p2 z) []) u) 0)) /\
-     (in_range p2 -> smooth_at (p2 ++ zeros 3) SE2_boxplus ->
-        forall i, is_derive (fun t => nth i (err_odo2 p1 (SE2_boxplus_fun p2 (vscale t u)) z) 0) 0 (nth i (matvec (nth 1 (jac_odo2 p1 p2 z) []) u) 0))) /\
-  (forall p l z off u, length p = 3%nat -> length l = 2%nat -> length z = 2%nat -> length off = 3%nat -> length u = 3%nat -> in_range p ->
-     smooth_at (p ++ zeros 3) SE2_boxplus -> smooth_at (p ++ off) SE2_oplus -> smooth_at (evl (p ++ off) SE2_oplus) SE2_inv ->
+     not_at_wrap (nth 2 z 0 - (nth 2 p2 0 - nth 2 p1 0)) ->
+     (forall i, is_derive (fun t => nth i (err_odo2 (SE2_boxplus_fun p1 (vscale t u)) p2 z) 0) 0 (nth i (matvec (nth 0 (jac_odo2 p1 p2 z) []) u) 0)) /\
+     (forall i, is_derive (fun t => nth i (err_odo2 p1 (SE2_boxplus_fun p2 (vscale t u)) z) 0) 0 (nth i (matvec (nth 1 (jac_odo2 p1 p2 z) []) u) 0))) /\
+  (* ---- SE(2) landmark, pose vertex: the error has no angular component; NO point is excluded ---- *)
+  (forall p l z off u, length p = 3%nat -> length l = 2%nat -> length z = 2%nat -> length off = 3%nat -> length u = 3%nat ->
      forall i, is_derive (fun t => nth i (err_lmk2 (SE2_boxplus_fun p (vscale t u)) l z off) 0) 0 (nth i (matvec (nth 0 (jac_lmk2 p l z off) []) u) 0)) /\
   (forall p l z off u, length p = 3%nat -> length l = 2%nat -> length z = 2%nat -> length off = 3%nat -> length u = 2%nat ->
      forall i, is_derive (fun t => nth i (err_lmk2 p (R2_boxplus_fun l (vscale t u)) z off) 0) 0 (nth i (matvec (nth 1 (jac_lmk2 p l z off) []) u) 0)) /\
